@@ -248,8 +248,12 @@ fn seq_case(ctx: &mut Ctx, defs: &[Instruction], body: &[Instruction], calls: &[
     let mut names = Names::default();
     let body_sexp = project_body(&mut names, &p);
     let mut dq = vec![];
-    for d in defs {
-        def_qubits(d, &mut dq);
+    {
+        let n_body = p.body_instructions().count();
+        let listing = p.to_instructions();
+        for d in &listing[..listing.len() - n_body] {
+            def_qubits(d, &mut dq);
+        }
     }
     let defq: Vec<Sexp> = dq.iter().map(|q| names.qubit(q)).collect();
     let mut call_sexps = vec![];
@@ -296,9 +300,68 @@ fn seq_case(ctx: &mut Ctx, defs: &[Instruction], body: &[Instruction], calls: &[
                     p.resolve_placeholders_with_custom_resolvers(tr, Box::new(move |k| qmap.get(k).copied()))
                 }
             }
-            steps.push(tagged("step", vec![tagged("body", project_body(&mut names, &p)), used_sexp(&mut names, &p)]));
+            // the definitions (calibrations) must be left exactly as they were: their qubits, by the harness's traversal
+            let n_body = p.body_instructions().count();
+            let listing = p.to_instructions();
+            let mut dq_after = vec![];
+            for d in &listing[..listing.len() - n_body] {
+                def_qubits(d, &mut dq_after);
+            }
+            let defq_after: Vec<Sexp> = dq_after.iter().map(|q| names.qubit(q)).collect();
+            steps.push(tagged(
+                "step",
+                vec![tagged("body", project_body(&mut names, &p)), used_sexp(&mut names, &p), tagged("defq", defq_after)],
+            ));
         }
         tagged("seqout", steps)
+    });
+}
+
+/// The two default resolvers queried directly (they are public API): every placeholder of `tph` / `qph`
+/// (some of which do not occur in the body) is looked up in the closures they return.
+fn tables_case(ctx: &mut Ctx, body: &[Instruction], tph: &[TargetPlaceholder], qph: &[QubitPlaceholder]) {
+    let mut p = Program::new();
+    p.add_instructions(body.iter().cloned());
+    let mut names = Names::default();
+    let body_sexp = project_body(&mut names, &p);
+    let tk: Vec<u64> = tph
+        .iter()
+        .map(|ph| {
+            let n = names.targets.len() as u64;
+            *names.targets.entry(ph.clone()).or_insert(n)
+        })
+        .collect();
+    let qk: Vec<u64> = qph
+        .iter()
+        .map(|ph| {
+            let n = names.qubits.len() as u64;
+            *names.qubits.entry(ph.clone()).or_insert(n)
+        })
+        .collect();
+    let input = tagged(
+        "tables",
+        vec![tagged("body", body_sexp), tagged("tq", tk.iter().map(|k| nat(*k)).collect()), tagged("qq", qk.iter().map(|k| nat(*k)).collect())],
+    );
+    ctx.case(input, || {
+        let tr = p.default_target_resolver();
+        let qr = p.default_qubit_resolver();
+        let dt: Vec<Sexp> = tph
+            .iter()
+            .zip(&tk)
+            .map(|(ph, k)| match tr(ph) {
+                Some(l) => list(vec![nat(*k), st(l)]),
+                None => list(vec![nat(*k), atom("none")]),
+            })
+            .collect();
+        let dq: Vec<Sexp> = qph
+            .iter()
+            .zip(&qk)
+            .map(|(ph, k)| match qr(ph) {
+                Some(v) => list(vec![nat(*k), nat(v)]),
+                None => list(vec![nat(*k), atom("none")]),
+            })
+            .collect();
+        tagged("tables", vec![tagged("dt", dt), tagged("dq", dq)])
     });
 }
 
@@ -580,6 +643,55 @@ fn run(ctx: &mut Ctx) {
         resolve_case(ctx, &body, mode, &tmap, &qmap);
     }
 
+    // 3b. the default resolvers queried directly, on random bodies and on boundary shapes
+    {
+        let mut rng = ctx.rng(3435);
+        let n_tab = if quick { 1500 } else { 40_000 };
+        for _ in 0..n_tab {
+            let (nq, nt) = (rng.below(5), rng.below(5));
+            let pool = g.pool(&mut rng, nq, nt);
+            let len = rng.below(12);
+            let max_fixed = if rng.chance(1, 4) { 0 } else { 1 + rng.below(8) };
+            let body: Vec<Instruction> = (0..len).map(|_| g.instruction(&mut rng, &pool, true, max_fixed)).collect();
+            let mut tph = pool.tph.clone();
+            let mut qph = pool.qph.clone();
+            tph.push(TargetPlaceholder::new("a".to_string())); // foreign: not in the body
+            qph.push(QubitPlaceholder::default());
+            tables_case(ctx, &body, &tph, &qph);
+        }
+        // suffixes crossing 9 -> 10 -> 100: a_0 … a_k taken
+        for k in [8u64, 9, 10, 11, 99, 100] {
+            let t = TargetPlaceholder::new("a".to_string());
+            let t2 = TargetPlaceholder::new("a".to_string());
+            let mut body: Vec<Instruction> = (0..=k).map(|i| label(fixed(&format!("a_{i}")))).collect();
+            body.push(jump(Target::Placeholder(t.clone())));
+            body.push(label(Target::Placeholder(t2.clone())));
+            tables_case(ctx, &body, &[t.clone(), t2.clone()], &[]);
+            resolve_case(ctx, &body, Mode::Default, &[], &[]);
+        }
+        // more than 32 / 64 placeholders of each kind, fixed qubits 0..=40 all in use, holes in the used set
+        for (n_ph, fixed_upto, step) in [(40usize, 40u64, 1u64), (70, 10, 1), (33, 80, 2), (5, 200, 3)] {
+            let qs: Vec<QubitPlaceholder> = (0..n_ph).map(|_| QubitPlaceholder::default()).collect();
+            let ts: Vec<TargetPlaceholder> = (0..n_ph).map(|i| TargetPlaceholder::new(format!("b{}", i % 3))).collect();
+            let mut body = vec![];
+            let mut f = 0;
+            while f <= fixed_upto {
+                body.push(x(Qubit::Fixed(f)));
+                f += step;
+            }
+            for (q, t) in qs.iter().zip(&ts).rev() {
+                body.push(x(Qubit::Placeholder(q.clone())));
+                body.push(label(Target::Placeholder(t.clone())));
+            }
+            body.push(x(Qubit::Fixed(u64::MAX)));
+            body.push(x(Qubit::Fixed(1 << 32)));
+            tables_case(ctx, &body, &ts, &qs);
+            resolve_case(ctx, &body, Mode::Default, &[], &[]);
+            seq_case(ctx, &[], &body, &[Call { mode: Mode::Custom, tmap: vec![], qmap: vec![(qs[0].clone(), 1), (qs[1].clone(), 1), (qs[2].clone(), 0)] },
+                Call { mode: Mode::Default, tmap: vec![], qmap: vec![] }]);
+        }
+    }
+
     // ---- sequences of calls on one program; body and used_qubits cache observed after every call ----
     let cal_defs: Vec<Vec<Instruction>> = vec![
         vec![],
@@ -592,6 +704,43 @@ fn run(ctx: &mut Ctx) {
         *qs[0] = a;
         *qs[1] = b;
         i
+    };
+    // calibrations built through the API whose identifier and body hold placeholders SHARED with the program body
+    // (resolution only touches the body: they must stay as they are, and keep counting as used qubits)
+    let cal_sharing = |qph: &[QubitPlaceholder], rng: &mut Rng| -> Vec<Instruction> {
+        let mut out = vec![];
+        let mut d = qvh::progs::parse_one("DEFCAL CZ 0 1:\n\tCZ 0 1\n\tSET-PHASE 0 \"rf\" 1\n\tX 1");
+        let mut m = qvh::progs::parse_one("DEFCAL MEASURE 0 addr:\n\tFENCE 0\n\tX 0");
+        let pickq = |rng: &mut Rng, q: &mut Qubit| {
+            if !qph.is_empty() && rng.chance(2, 3) {
+                *q = Qubit::Placeholder(rng.pick(qph).clone());
+            } else {
+                *q = Qubit::Fixed(rng.below(4));
+            }
+        };
+        if let Instruction::CalibrationDefinition(c) = &mut d {
+            for q in c.identifier.qubits.iter_mut() {
+                pickq(rng, q);
+            }
+            for i in c.instructions.iter_mut() {
+                for q in all_qubits_mut(i) {
+                    pickq(rng, q);
+                }
+            }
+        }
+        if let Instruction::MeasureCalibrationDefinition(c) = &mut m {
+            pickq(rng, &mut c.identifier.qubit);
+            for i in c.instructions.iter_mut() {
+                for q in all_qubits_mut(i) {
+                    pickq(rng, q);
+                }
+            }
+        }
+        out.push(d);
+        if rng.chance(1, 2) {
+            out.push(m);
+        }
+        out
     };
     let partial = |set: &[QubitPlaceholder], base: u64| -> Vec<(QubitPlaceholder, u64)> {
         set.iter().enumerate().map(|(i, p)| (p.clone(), base + i as u64)).collect()
@@ -616,7 +765,12 @@ fn run(ctx: &mut Ctx) {
                  label(Target::Placeholder(tb.clone()))],
             vec![set_phase(ph(1)), gate2("CZ", ph(1), ph(2))],
         ];
-        for defs in &cal_defs {
+        let mut rng0 = ctx.rng(3436);
+        let mut all_defs = cal_defs.clone();
+        for _ in 0..3 {
+            all_defs.push(cal_sharing(&q, &mut rng0));
+        }
+        for defs in &all_defs {
             for b in &bodies {
                 for v in [0u64, 1, 5] {
                     seq_case(ctx, defs, b, &[Call { mode: Mode::Custom, tmap: vec![], qmap: vec![(q[1].clone(), v)] }, dflt()]);
@@ -691,7 +845,7 @@ fn run(ctx: &mut Ctx) {
         let max_fixed = if rng.chance(1, 3) { 0 } else { 1 + rng.below(5) };
         let frames = rng.chance(1, 4);
         let body: Vec<Instruction> = (0..len).map(|_| g.instruction(&mut rng, &pool, frames, max_fixed)).collect();
-        let defs = rng.pick(&cal_defs).clone();
+        let defs = if rng.chance(1, 3) { cal_sharing(&pool.qph, &mut rng) } else { rng.pick(&cal_defs).clone() };
         let (never_last, never_first, all) = position_classes(&body);
         let n_calls = 2 + rng.below(2);
         let mut calls = vec![];
